@@ -157,6 +157,22 @@ def load_known():
     with open(p) as f:
         return json.load(f)
 
+def borrow(F, rep, modname, pid, rule, select, what):
+    """Run another property's check on the same facts (silently) and import the verdicts of the rule instances whose
+    key matches one of `select` (substring match): the importing property depends on them.  Keys are re-rooted under `rule`."""
+    import importlib
+    mod = importlib.import_module(modname)
+    sub = Report(pid, rep.tier); sub.silent = True
+    mod.check(F, sub, rep.tier)
+    hit = [v for v in sub.violations if any(x in v["key"] for x in select)]
+    for v in hit:
+        rep.bad(rule, "dep:" + v["key"], "%s (imported from %s: %s)" % (v["msg"], pid, what), v.get("site"))
+    if not hit:
+        rep.ok(rule, "%s: %s rule instances %s hold" % (what, pid, list(select)), nontrivial_key="dep:" + pid + ":" + ",".join(select))
+    rep.functions |= sub.functions
+    return hit
+
+
 def finish(rep, level="other", explanation="", assumptions=None, trusted=None):
     """Write evidence + reports, print VIOLATION / KNOWN-FINDING lines, return exit code."""
     known = load_known()
